@@ -195,7 +195,10 @@ impl InlineTable {
 
     /// Returns an accessor to a key's formatting
     pub fn key(&self, key: &str) -> Option<&'_ Key> {
-        self.items.get_full(key).map(|(_, key, _)| key)
+        self.items
+            .get_full(key)
+            .filter(|(_, _, value)| !value.is_none())
+            .map(|(_, key, _)| key)
     }
 
     /// Returns an accessor to a key's formatting
@@ -203,6 +206,7 @@ impl InlineTable {
         use indexmap::map::MutableKeys;
         self.items
             .get_full_mut2(key)
+            .filter(|(_, _, value)| !value.is_none())
             .map(|(_, key, _)| key.as_mut())
     }
 
@@ -291,7 +295,9 @@ impl InlineTable {
 
     /// Gets the given key's corresponding entry in the Table for in-place manipulation.
     pub fn entry(&'_ mut self, key: impl Into<InternalString>) -> InlineEntry<'_> {
-        match self.items.entry(key.into().into()) {
+        let key = key.into();
+        self.remove_placeholder(&key);
+        match self.items.entry(key.into()) {
             indexmap::map::Entry::Occupied(mut entry) => {
                 // Ensure it is a `Value` to simplify `InlineOccupiedEntry`'s code.
                 let scratch = std::mem::take(entry.get_mut());
@@ -312,6 +318,7 @@ impl InlineTable {
 
     /// Gets the given key's corresponding entry in the Table for in-place manipulation.
     pub fn entry_format<'a>(&'a mut self, key: &Key) -> InlineEntry<'a> {
+        self.remove_placeholder(key.get());
         // Accept a `&Key` to be consistent with `entry`
         match self.items.entry(key.clone()) {
             indexmap::map::Entry::Occupied(mut entry) => {
@@ -331,6 +338,13 @@ impl InlineTable {
             indexmap::map::Entry::Vacant(entry) => InlineEntry::Vacant(InlineVacantEntry { entry }),
         }
     }
+    /// `Item::None` left behind by mutable indexing is not an entry
+    fn remove_placeholder(&mut self, key: &str) {
+        if self.items.get(key).map_or(false, |value| value.is_none()) {
+            self.items.shift_remove(key);
+        }
+    }
+
     /// Return an optional reference to the value at the given the key.
     pub fn get(&self, key: &str) -> Option<&Value> {
         self.items.get(key).and_then(|value| value.as_value())
@@ -383,6 +397,7 @@ impl InlineTable {
         value: V,
     ) -> &mut Value {
         let key = key.into();
+        self.remove_placeholder(&key);
         self.items
             .entry(Key::new(key))
             .or_insert(Item::Value(value.into()))
@@ -452,7 +467,7 @@ impl InlineTable {
         self.items.retain(|key, item| {
             item.as_value_mut()
                 .map(|value| keep(key, value))
-                .unwrap_or(false)
+                .unwrap_or(true)
         });
     }
 }
@@ -531,13 +546,19 @@ pub type InlineTableIterMut<'a> = Box<dyn Iterator<Item = (KeyMut<'a>, &'a mut V
 
 impl TableLike for InlineTable {
     fn iter(&self) -> Iter<'_> {
-        Box::new(self.items.iter().map(|(key, value)| (key.get(), value)))
+        Box::new(
+            self.items
+                .iter()
+                .filter(|(_, value)| !value.is_none())
+                .map(|(key, value)| (key.get(), value)),
+        )
     }
     fn iter_mut(&mut self) -> IterMut<'_> {
         use indexmap::map::MutableKeys;
         Box::new(
             self.items
                 .iter_mut2()
+                .filter(|(_, value)| !value.is_none())
                 .map(|(key, value)| (key.as_mut(), value)),
         )
     }
@@ -545,6 +566,7 @@ impl TableLike for InlineTable {
         self.clear();
     }
     fn entry<'a>(&'a mut self, key: &str) -> crate::Entry<'a> {
+        self.remove_placeholder(key);
         // Accept a `&str` rather than an owned type to keep `InternalString`, well, internal
         match self.items.entry(key.into()) {
             indexmap::map::Entry::Occupied(entry) => {
@@ -556,6 +578,7 @@ impl TableLike for InlineTable {
         }
     }
     fn entry_format<'a>(&'a mut self, key: &Key) -> crate::Entry<'a> {
+        self.remove_placeholder(key.get());
         // Accept a `&Key` to be consistent with `entry`
         match self.items.entry(key.get().into()) {
             indexmap::map::Entry::Occupied(entry) => {
@@ -567,10 +590,10 @@ impl TableLike for InlineTable {
         }
     }
     fn get<'s>(&'s self, key: &str) -> Option<&'s Item> {
-        self.items.get(key)
+        self.items.get(key).filter(|value| !value.is_none())
     }
     fn get_mut<'s>(&'s mut self, key: &str) -> Option<&'s mut Item> {
-        self.items.get_mut(key)
+        self.items.get_mut(key).filter(|value| !value.is_none())
     }
     fn get_key_value<'a>(&'a self, key: &str) -> Option<(&'a Key, &'a Item)> {
         self.get_key_value(key)
